@@ -99,6 +99,13 @@ class FmtInterp(Interp):
         if isinstance(v, int):
             return str(v)
         if isinstance(v, float):
+            if "?" in spec:
+                # Debug for f64 always keeps a fraction or an exponent
+                if v == v and v not in (float("inf"), float("-inf")) and v == int(v) and abs(v) < 1e16:
+                    return "%d.0" % int(v)
+                import re as _re
+                r = repr(v)
+                return _re.sub(r"e([+-]?)0*(\d)", lambda m: "e" + ("-" if m.group(1) == "-" else "") + m.group(2), r)
             return rust_f64(v)
         if isinstance(v, tuple):
             if v[:1] == ("str",):
